@@ -3,6 +3,8 @@ import BertE.Gen.Messages
 import BertE.Model.Build
 import BertE.Lemmas.Build
 import BertE.Drv.C06
+import BertE.Lemmas.EvalGates
+import BertE.Drv.Eval
 /-
 C06 — the build gate requires a green build on every integration commit.
 
@@ -234,5 +236,264 @@ example : checkBuild BertE.Drv.C06.genTbl false false false [.successful, .stopp
     = .raise "BuildFailed" 1 := by decide
 example : checkBuild BertE.Drv.C06.genTbl false false false [.successful, .notStarted, .inProgress]
     = .raise "BuildNotStarted" 1 := by decide
+
+end BertE.C06
+
+
+/-! ### End to end: the build gate inside the composed evaluation (`Model/Eval.lean`)
+
+`evalPr` runs `_handle_pull_request` line by line on the state of the git host and of the repository; how far it
+goes is computed. The theorems below say that an evaluation ENTERS the queue (or merges directly) only through the
+build gate, read on the integration tips AS THEY ARE IN THE CLONE AFTER `update_integration_branches`, in the
+host's own build-status table; and that when the gate refuses, the job ends with the right class and its plan
+stops at the push of the `w/` branches. -/
+namespace BertE.C06
+open BertE.Build BertE.Eval BertE.Flow BertE.Reactor
+
+/-- the build check is bypassed for this pull request (admin comment / command line option, or per-author
+    setting), or no build key is configured -/
+def e2eBypassed (c : Eval.Cfg) (p : Eval.Pr) (st : State) : Prop :=
+  opt st "bypass_build_status" = true ∨ (envFor c p).authorBypass.contains "bypass_build_status" = true ∨
+    c.buildKey = ""
+
+/-- every integration commit — the source branch tip for the first target, each `w/` tip for the others, as they
+    are in the clone after the update — is SUCCESSFUL in the host's build-status table -/
+def e2eAllGreen (h : Host) (s : Sys) (pr : PrInfo) (l4 : Loc) : Prop :=
+  ∀ d ∈ s.targets pr.dst, ∃ cm, l4.refs.get (wRef pr pr.dst d) = some cm ∧ h.status cm = .successful
+
+theorem e2e_build_pass {c : Eval.Cfg} {msgs : List BertE.Gen.Messages.Msg} (hT : TblOK c.build msgs)
+    {h : Host} {s : Sys} {p : Eval.Pr} {st : State} {pr : PrInfo} {l4 : Loc}
+    (hb : checkBuildStatus c (envFor c p) st h l4 pr (s.targets pr.dst) = .pass) :
+    e2eBypassed c p st ∨ e2eAllGreen h s pr l4 := by
+  unfold checkBuildStatus at hb
+  split at hb
+  · cases hb
+  · next sts hsts =>
+    obtain ⟨hlen, htips⟩ := evalG_tipStatuses hsts
+    by_cases hby : opt st "bypass_build_status" = true ∨
+        (envFor c p).authorBypass.contains "bypass_build_status" = true ∨ (c.buildKey == "") = true
+    · left
+      rcases hby with h1 | h1 | h1
+      · exact Or.inl h1
+      · exact Or.inr (Or.inl h1)
+      · exact Or.inr (Or.inr (by simpa using h1))
+    · right
+      have h3 : opt st "bypass_build_status" = false ∧
+          (envFor c p).authorBypass.contains "bypass_build_status" = false ∧ (c.buildKey == "") = false := by
+        refine ⟨?_, ?_, ?_⟩
+        · cases hx : opt st "bypass_build_status" <;> simp_all
+        · cases hx : (envFor c p).authorBypass.contains "bypass_build_status" <;> simp_all
+        · cases hx : (c.buildKey == "") <;> simp_all
+      rw [h3.1, h3.2.1, h3.2.2] at hb
+      have hne : sts ≠ [] := by
+        intro he
+        rw [he] at hlen
+        exact evalG_targets_ne s pr.dst (List.length_eq_zero_iff.mp hlen.symm)
+      have hall := (C06_pass_iff hT sts hne).mp hb
+      intro d hd
+      obtain ⟨cm, hcm, hmem⟩ := htips d hd
+      exact ⟨cm, hcm, hall _ hmem⟩
+
+/-- **C06, end to end.** If the evaluation of a pull request that was not queued before reaches the final stage
+    (its plan is the entry into the queue or the direct merge), then `check_build_status` was evaluated in this
+    very evaluation on the tips of the clone AFTER the update of the integration branches, and it is bypassed,
+    or no key is configured, or every one of these tips is SUCCESSFUL in the host's table. -/
+theorem C06_e2e_entered {c : Eval.Cfg} {msgs : List BertE.Gen.Messages.Msg} (hT : TblOK c.build msgs)
+    {h : Host} {s : Sys} {id : Nat} {orc : List Bool} {sel : List Nat}
+    (hd : (evalPr c h s id orc sel).declined = false) (hf : (evalPr c h s id orc sel).stage = .final)
+    (hnq : alreadyQueued s (evalPr c h s id orc sel).pr = false) :
+    ∃ p st src pr sc dc l4 pushW, Entered c h s id orc sel p st src pr sc dc l4 pushW ∧
+      (e2eBypassed c p st ∨ e2eAllGreen h s pr l4) := by
+  obtain ⟨p, st, src, pr, sc, dc, l4, pushW, he⟩ := evalPr_entered hd hf hnq
+  exact ⟨p, st, src, pr, sc, dc, l4, pushW, he, e2e_build_pass hT he.build⟩
+
+/-- The same, read off the plan: if the plan holds ANY operation other than a push of `w/` branches of this pull
+    request (a `q/` or `q/w/` ref is created, a destination ref moves, something is deleted), the build gate
+    let the pull request through. -/
+theorem C06_e2e_ops {c : Eval.Cfg} {msgs : List BertE.Gen.Messages.Msg} (hT : TblOK c.build msgs)
+    {h : Host} {s : Sys} {id : Nat} {orc : List Bool} {sel : List Nat}
+    (hd : (evalPr c h s id orc sel).declined = false)
+    (hnq : alreadyQueued s (evalPr c h s id orc sel).pr = false)
+    (hop : ∃ op ∈ (evalPr c h s id orc sel).plan.ops, ¬ Op.onlyW (evalPr c h s id orc sel).pr.src op) :
+    ∃ p st src pr sc dc l4 pushW, Entered c h s id orc sel p st src pr sc dc l4 pushW ∧
+      (e2eBypassed c p st ∨ e2eAllGreen h s pr l4) := by
+  apply C06_e2e_entered hT hd _ hnq
+  apply Classical.byContradiction
+  intro hnf
+  obtain ⟨op, hmem, hno⟩ := hop
+  exact hno (evalPr_stops_at_w hd hnf op hmem)
+
+/-- some integration tip of the updated clone is FAILED or STOPPED in the host's table -/
+def e2eSomeFailed (h : Host) (s : Sys) (pr : PrInfo) (l4 : Loc) : Prop :=
+  ∃ d ∈ s.targets pr.dst, ∃ cm, l4.refs.get (wRef pr pr.dst d) = some cm ∧
+    (h.status cm = .failed ∨ h.status cm = .stopped)
+
+theorem e2e_statuses {h : Host} {s : Sys} {pr : PrInfo} {l4 : Loc}
+    (hex : ∀ d ∈ s.targets pr.dst, (l4.refs.get (wRef pr pr.dst d)).isSome = true) :
+    ∃ sts, tipStatuses h (integrationTips l4 pr (s.targets pr.dst)) = some sts ∧ sts ≠ [] ∧
+      ∀ x, x ∈ sts ↔ ∃ d ∈ s.targets pr.dst, ∃ cm, l4.refs.get (wRef pr pr.dst d) = some cm ∧ h.status cm = x := by
+  have hne := evalG_targets_ne s pr.dst
+  generalize s.targets pr.dst = ts at hex hne
+  unfold tipStatuses integrationTips
+  have key : ∀ ts : List Dest, (∀ d ∈ ts, (l4.refs.get (wRef pr pr.dst d)).isSome = true) →
+      ∃ sts, List.mapM (fun t => Option.map h.status t) (ts.map (fun d => l4.refs.get (wRef pr pr.dst d))) = some sts ∧
+        sts.length = ts.length ∧
+        ∀ x, x ∈ sts ↔ ∃ d ∈ ts, ∃ cm, l4.refs.get (wRef pr pr.dst d) = some cm ∧ h.status cm = x := by
+    intro ts
+    induction ts with
+    | nil => intro _; exact ⟨[], rfl, rfl, by simp⟩
+    | cons d ds ih =>
+      intro hex
+      obtain ⟨rest, hr, hl, hm⟩ := ih (fun d' hd' => hex d' (List.mem_cons_of_mem _ hd'))
+      have hd := hex d List.mem_cons_self
+      cases hg : l4.refs.get (wRef pr pr.dst d) with
+      | none => rw [hg] at hd; cases hd
+      | some cm =>
+        refine ⟨h.status cm :: rest, ?_, by simp [hl], ?_⟩
+        · simp only [List.map_cons, List.mapM_cons, hg, Option.map_some, Option.pure_def, Option.bind_eq_bind,
+            Option.bind_some, hr]
+        · intro x
+          simp only [List.mem_cons, hm]
+          constructor
+          · rintro (rfl | ⟨d', hd', cm', h1, h2⟩)
+            · exact ⟨d, Or.inl rfl, cm, hg, rfl⟩
+            · exact ⟨d', Or.inr hd', cm', h1, h2⟩
+          · rintro ⟨d', hd' | hd', cm', h1, h2⟩
+            · subst hd'; rw [hg] at h1; cases h1; exact Or.inl h2.symm
+            · exact Or.inr ⟨d', hd', cm', h1, h2⟩
+  obtain ⟨sts, h1, h2, h3⟩ := key ts hex
+  refine ⟨sts, h1, ?_, h3⟩
+  intro he; rw [he] at h2; exact hne (List.length_eq_zero_iff.mp h2.symm)
+
+/-- **C06, end to end, the refusals.** The evaluation reaches the gates (`Reaches`), no skew, the review gate
+    passes, the build check is not bypassed and a key is configured, every integration branch exists in the
+    updated clone. Then:
+    * some tip FAILED or STOPPED: the job ends as `BuildFailed`, which is posted to the author;
+    * otherwise, some tip not SUCCESSFUL: the job ends with a silent class and posts nothing more;
+    in both cases the stage is `integration` and the plan stops at the push of the `w/` branches. -/
+theorem C06_e2e_refused {c : Eval.Cfg} {msgs : List BertE.Gen.Messages.Msg} (hT : TblOK c.build msgs)
+    (hk : ∀ cls, c.early.kind cls = kindOf msgs cls)
+    {h : Host} {s : Sys} {id : Nat} {orc : List Bool} {sel : List Nat}
+    {p : Eval.Pr} {st : State} {src : BertE.Names.Parsed} {pr : PrInfo} {sc dc : BertE.Git.Commit} {l4 : Loc}
+    {pushW : List Op} (hr : Reaches c h s id orc sel p st src pr sc dc l4 pushW) (hsk : p.facts.skew = false)
+    (ha : BertE.Approvals.checkApprovals (approvalsCfg c (envFor c p) st) (approvalsInput p) = .pass)
+    (hnb : ¬ e2eBypassed c p st)
+    (hex : ∀ d ∈ s.targets pr.dst, (l4.refs.get (wRef pr pr.dst d)).isSome = true)
+    (hng : ¬ e2eAllGreen h s pr l4) :
+    (evalPr c h s id orc sel).stage = .integration ∧
+    (evalPr c h s id orc sel).plan = ⟨l4.g, pushW, "gate", s.queue⟩ ∧
+    (e2eSomeFailed h s pr l4 →
+        (evalPr c h s id orc sel).outcome = "BuildFailed" ∧ "BuildFailed" ∈ (evalPr c h s id orc sel).notified) ∧
+    (¬ e2eSomeFailed h s pr l4 →
+        kindOf msgs (evalPr c h s id orc sel).outcome = some "silent" ∧
+        (evalPr c h s id orc sel).notified = greetingOf c h s p ++
+          (if integrationDataNotified c h s st pr (s.targets pr.dst) then ["IntegrationDataCreated"] else [])) := by
+  obtain ⟨sts, hsts, hne, hmem⟩ := e2e_statuses (h := h) hex
+  have h3 : opt st "bypass_build_status" = false ∧
+      (envFor c p).authorBypass.contains "bypass_build_status" = false ∧ (c.buildKey == "") = false := by
+    unfold e2eBypassed at hnb
+    refine ⟨?_, ?_, ?_⟩
+    · cases hx : opt st "bypass_build_status" <;> simp_all
+    · cases hx : (envFor c p).authorBypass.contains "bypass_build_status" <;> simp_all
+    · cases hx : (c.buildKey == "")
+      · rfl
+      · exact absurd (Or.inr (Or.inr (by simpa using hx))) hnb
+  have hcb : checkBuildStatus c (envFor c p) st h l4 pr (s.targets pr.dst) = checkBuild c.build false false false sts := by
+    unfold checkBuildStatus
+    rw [hsts, h3.1, h3.2.1, h3.2.2]
+  have hnall : ¬ ∀ x ∈ sts, x = .successful := by
+    intro hall
+    apply hng
+    intro d hd
+    have hd' := hex d hd
+    cases hg : l4.refs.get (wRef pr pr.dst d) with
+    | none => rw [hg] at hd'; cases hd'
+    | some cm => exact ⟨cm, rfl, hall _ ((hmem _).mpr ⟨d, hd, cm, hg, rfl⟩)⟩
+  rw [hr.eq]
+  by_cases hf : e2eSomeFailed h s pr l4
+  · have hfs : ∃ x ∈ sts, x = .failed ∨ x = .stopped := by
+      obtain ⟨d, hd, cm, hcm, hst⟩ := hf
+      exact ⟨h.status cm, (hmem _).mpr ⟨d, hd, cm, hcm, rfl⟩, hst⟩
+    obtain ⟨i, hi, _⟩ := (C06_failed_iff hT sts hne).mpr hfs
+    obtain ⟨h1, h2, h3', h4⟩ := gates_build_raise c h s p pr st (greetingOf c h s p) sc l4 pushW hsk ha (hcb.trans hi)
+    have hkt : c.early.kind "BuildFailed" = some "template" := by rw [hk]; exact hT.failedKind
+    refine ⟨h1, h3', fun _ => ⟨?_, ?_⟩, fun hn => absurd hf hn⟩
+    · rw [h2, evalL_raise_class]
+    · rw [h4, evalL_raise_template hkt]
+      simp [decisionPosted]
+  · have hnf : ∀ x ∈ sts, x ≠ .failed ∧ x ≠ .stopped := by
+      intro x hx
+      obtain ⟨d, hd, cm, hcm, hst⟩ := (hmem x).mp hx
+      constructor <;> intro he <;> apply hf
+      · exact ⟨d, hd, cm, hcm, Or.inl (hst.trans he)⟩
+      · exact ⟨d, hd, cm, hcm, Or.inr (hst.trans he)⟩
+    have hns : ∃ x ∈ sts, x ≠ .successful := by
+      apply Classical.byContradiction
+      intro hc
+      apply hnall
+      intro x hx
+      apply Classical.byContradiction
+      intro hne'
+      exact hc ⟨x, hx, hne'⟩
+    obtain ⟨cls, i, hci, hsil⟩ := C06_waits_silently hT sts hne hnf hns
+    obtain ⟨h1, h2, h3', h4⟩ := gates_build_raise c h s p pr st (greetingOf c h s p) sc l4 pushW hsk ha (hcb.trans hci)
+    have hks : c.early.kind cls = some "silent" := by rw [hk]; exact hsil
+    refine ⟨h1, h3', fun hp => absurd hp hf, fun _ => ⟨?_, ?_⟩⟩
+    · rw [h2, evalL_raise_class]; exact hsil
+    · rw [h4, BertE.Early.raise_silent hks]
+      simp [decisionPosted]
+
+/-- **Source obligation**: the calls that `_handle_pull_request` makes to the steps `evalPr` composes occur in the
+    current source exactly once each and in the order in which `evalPr` runs them (`Eval.gateOrder`) — in
+    particular `jira_checks` before `create_integration_branches`, and `check_build_status` after
+    `update_integration_branches` and after `check_approvals`. -/
+theorem C06_e2e_source_order :
+    BertE.Gen.Early.calls.filter (fun f => Eval.gateOrder.contains f) = Eval.gateOrder := by decide
+
+/-! Non-vacuity on the tables of the current source: a pull request on a two-branch cascade whose source tip is
+    green and whose `w/` tip — created by this very evaluation — has no status yet is NOT let through
+    (`BuildNotStarted`); with a green status on the tip the update produces, it enters the queue. -/
+
+def exCfg : Eval.Cfg :=
+  { reg := BertE.Drv.C07.genRegistry.withCmdLine ["bypass_jira_check"]
+    env := ⟨["admin"], "", "robot", []⟩
+    authorOptions := []
+    early := BertE.Drv.C12.genTbl
+    build := BertE.Drv.C06.genTbl
+    buildKey := "pre-merge"
+    approvals := { requiredPeers := 0, requiredLeaders := 0, needAuthor := false, projectLeaders := ["admin"],
+                   robot := "robot", bypassAuthorS := false, bypassAuthorA := false, bypassPeerS := false,
+                   bypassPeerA := false, bypassLeaderS := false, bypassLeaderA := false, approve := false,
+                   unanimity := false }
+    jira := ⟨false, false, [], [], "", "", [], false⟩
+    ticketless := BertE.Drv.Eval.ticketlessOf
+    maxCommitDiff := 0
+    createBranches := true
+    createPrs := false }
+
+def exSys : Sys :=
+  (step (BertE.Drv.C01.initSys true false [.dev 4 (some 3), .dev 5 (some 1)]) (.extSet "feature/TEST-1" [1] false)).1
+
+def exPr (approvals : List String := []) : Eval.Pr :=
+  { id := 1, author := "contrib", src := "feature/TEST-1", dst := "development/4.3", status := "OPEN",
+    comments := [], approvals := approvals, changeRequests := [], participants := approvals }
+
+/-- the source tip (commit 3) is green; the `w/5.1` tip the update creates (commit 4) has no status -/
+def exHostStale : Host := ⟨[exPr], [(3, .successful)], []⟩
+/-- ... and with a status on that very commit -/
+def exHostGreen : Host := ⟨[exPr], [(3, .successful), (4, .successful)], []⟩
+
+example : (evalPr exCfg exHostStale exSys 1 [] []).stage = .integration ∧
+    (evalPr exCfg exHostStale exSys 1 [] []).outcome = "BuildNotStarted" ∧
+    (evalPr exCfg exHostStale exSys 1 [] []).notified = ["InitMessage", "IntegrationDataCreated"] := by decide +kernel
+
+example : (evalPr exCfg exHostGreen exSys 1 [] []).stage = .final ∧
+    (evalPr exCfg exHostGreen exSys 1 [] []).declined = false ∧
+    alreadyQueued exSys (evalPr exCfg exHostGreen exSys 1 [] []).pr = false ∧
+    (evalPr exCfg exHostGreen exSys 1 [] []).outcome = "Queued" := by decide +kernel
+
+/-- the table hypothesis of `C06_e2e_refused` holds of the generated tables -/
+example : ∀ cls ∈ BertE.Gen.Messages.messages.map (·.name), exCfg.early.kind cls = kindOf BertE.Gen.Messages.messages cls := by
+  decide +kernel
 
 end BertE.C06
